@@ -121,7 +121,20 @@ PLAN12 = {
  'WCI-m1': ('I', ['C09']), 'WCI-m2': ('I', ['C09']),
  'WCJ-m1': ('J', ['C10']), 'WCJ-m2': ('J', ['C10']),
 }
+PLAN13 = {
+ 'WDA-m1': ('A', ['C10']), 'WDA-m2': ('A', ['C10']),
+ 'WDB-m1': ('B', ['C10']), 'WDB-m2': ('B', ['C10']),
+ 'WDC-m1': ('C', ['C20']), 'WDC-m2': ('C', ['C20']),
+ 'WDD-m1': ('D', ['C20']), 'WDD-m2': ('D', ['C20']),
+ 'WDE-m1': ('E', ['C07']), 'WDE-m2': ('E', ['C07']),
+ 'WDF-m1': ('F', ['C09']), 'WDF-m2': ('F', ['C09']),
+ 'WDG-m1': ('G', ['C08']), 'WDG-m2': ('G', ['C08']),
+ 'WDH-m1': ('H', ['C01']), 'WDH-m2': ('H', ['C01']),
+}
 SRC = {}
+for k, (d, checks) in PLAN13.items():
+    PLAN[k] = checks
+    SRC[k] = f'/tmp/mut13-{d}/out/{k.split("-")[1]}'
 for k, (d, checks) in PLAN12.items():
     PLAN[k] = checks
     SRC[k] = f'/tmp/mut12-{d}/out/{k.split("-")[1]}'
